@@ -452,7 +452,7 @@ def c18_twin(a, col, budget=None):
     pidx = 18
     t0 = time.time()
     prog = 0
-    w = {"config": 0, "measure": 5, "combine": 4, "reorder": 2, "trace_out": 3, "apply1": 2, "applyc": 3, "kraus": 1, "povm": 1.5,
+    w = {"config": 0, "measure": 5, "combine": 4, "reorder": 2, "trace_out": 3, "apply1": 2, "applyc": 3, "kraus": 3, "povm": 2.5,
          "resize": 0, "composite": 1.5, "contract": 0.3, "expand": 0.8}
     while time.time() - t0 < budget:
         rng = np.random.default_rng([a.seed, pidx, a.shard, prog, 3])
